@@ -5,6 +5,9 @@ V = os.path.dirname(os.path.dirname(os.path.abspath(__file__)))
 claims = json.load(open(os.path.join(V, 'tools', 'claims.json')))
 props = [json.loads(l) for l in open(os.path.join(V, 'properties.jsonl'))]
 checks, na = [], []
+SUFFIX = (" Every harness family also has history instances (an earlier call, a copy, an in-place edit or a changed cell before the call under "
+          "test). On a sample of paths the obligation z3 has proved (path AND NOT oracle, SMT-LIB2 text) is re-decided by cvc5 1.4.0; a "
+          "disagreement is a harness error (exit 3); counts are in the evidence (cvc5_crosscheck).")
 for p in props:
     c = claims.get(p['id'])
     if c and c.get('claimed'):
@@ -16,7 +19,7 @@ for p in props:
             replay_cmd_template="./check --replay {path}",
             engine="symnp",
             level_claimed=dict(category=c['category'], text=c['text'], design_ref=c.get('design_ref', 'DESIGN.md section 6')),
-            level_note=c['note'],
+            level_note=c['note'] + SUFFIX,
             technique=c['technique']))
     else:
         na.append(dict(property_id=p['id'], reason=(c or {}).get('reason', 'check not built yet in this round (planned: see DESIGN.md section 6)')))
@@ -29,7 +32,9 @@ m = dict(
     engines=[dict(name="symnp", path="/verif/symnp", serves_properties=[c['property_id'] for c in checks],
                   kind_free_text="z3-backed symbolic execution of mofun's real Python source (numpy on object arrays, solver-decided branches, DFS re-execution), per-path unsat of path AND NOT oracle; counterexamples replayed on the unshimmed code"),
              dict(name="crosshair", path="/verif/harness/c19_terms.py", serves_properties=[p for p in ('C19',) if claims.get(p, {}).get('claimed')],
-                  kind_free_text="CrossHair 0.0.110 contracts on the pure-Python kernel helpers.typekey (second engine inside the C19 check: every condition must be 'Confirmed over all paths')")],
+                  kind_free_text="CrossHair 0.0.110 contracts on the pure-Python kernel helpers.typekey (second engine inside the C19 check: every condition must be 'Confirmed over all paths')"),
+             dict(name="cvc5-second-opinion", path="/verif/symnp/core.py", serves_properties=[c['property_id'] for c in checks],
+                  kind_free_text="cvc5 1.4.0 (Python wheel) re-decides a sample of the obligations z3 answered unsat (Engine.second_opinion); never decides a property on its own")],
     checks=checks,
     notes="All claims are bounded (bounds in each evidence file and DESIGN.md section 6); none is a proof. Exit 3 = harness error (never a verdict).",
     not_applicable=na)
